@@ -113,6 +113,7 @@ def compare(a, b):
         return False, "raises-on-one-side", {"raised": bad["err"], "msg": bad.get("msg")}
     ia = {t: i for i, t in enumerate(a["ts"])}
     na, nb = a["pred"], b["pred"]
+    ta, tb = a.get("temp"), b.get("temp")
     n_both = 0
     for j, t in enumerate(b["ts"]):
         i = ia.get(t)
@@ -122,6 +123,10 @@ def compare(a, b):
         if x != x or y != y:
             continue
         n_both += 1
+        if ta is not None and tb is not None and bits(ta[i]) != bits(tb[j]):
+            # the weather the data object hands to the model for a stamp predicted in both runs
+            return False, "weather-differs", {"ts": int(t), "temperature_a": float(ta[i]), "temperature_b": float(tb[j]),
+                                              "predicted_a": float(x), "predicted_b": float(y)}
         if bits(x) != bits(y):
             return False, "value-differs", {"ts": int(t), "a": float(x), "b": float(y), "rel": abs(x - y) / max(1e-300, abs(x))}
     return True, None, {"n_both": n_both}
@@ -283,6 +288,174 @@ def daily_stream(run, cases):
                                   "model": run.coq_eval(IMPORTS, "", "show_daily %s" % terms[i])[-1200:]})
     for i in bad[4:]:
         run.corr_failures.append({"stream": "daily", "case": meta[i]})
+
+
+# ================================================================== daily / billing through the data classes, sub-daily weather
+
+SUB_ALTS = ALTS
+MI = {"z": 0}
+
+
+def wall_minutes(idx):
+    """local wall-clock minutes since 1970-01-01 00:00 local (tz-naive view of the index)"""
+    naive = idx.tz_localize(None)
+    unit = getattr(naive, "unit", "ns")
+    div = {"ns": 60 * 10**9, "us": 60 * 10**6, "ms": 60 * 10**3, "s": 60}[unit]
+    return [int(t) // div for t in naive.asi8]
+
+
+SUB_COMBOS = [(kind, via, sh) for kind in ("daily", "billing") for via in ("frame", "from_series") for sh in (0, 6, 18)]
+
+
+def gen_subdaily_case(rng, k):
+    kind, via, sh = SUB_COMBOS[(k * 5) % 12]          # 5 is coprime to 12: every combination within 12 cases
+    return {"stream": "subdaily", "model": kind, "via": via, "start_hour": sh, "usage_hour": rng.choice([0, 0, 7]),
+            "usage": "hourly" if (kind == "daily" and rng.random() < 0.2) else "daily",
+            "tz": rng.choice(["US/Pacific", "Europe/Berlin", "UTC"]),
+            "start": rng.choice(["2022-01-10", "2022-06-06", "2022-07-18", "2022-08-01"]),
+            "ndays": rng.choice([12, 25, 40]) if kind == "daily" else rng.choice([100, 150]),
+            "seed": rng.randrange(2**31)}
+
+
+def build_subdaily(case):
+    """-> (hourly temperature Series, usage Series on its own stamps)"""
+    r = np.random.default_rng(case["seed"])
+    idx = pd.date_range(pd.Timestamp("%s %02d:00" % (case["start"], case["start_hour"]), tz=case["tz"]),
+                        periods=case["ndays"] * 24, freq="h")
+    temp = pd.Series(np.round((55 + 12 * np.sin((idx.hour.values - 9) / 24 * 2 * np.pi) + r.normal(0, 3, len(idx))) * 4) / 4,
+                     index=idx, name="temperature")
+    if case["model"] == "daily":
+        m = (idx.hour == case["usage_hour"]) if case["usage"] == "daily" else np.ones(len(idx), dtype=bool)
+        uidx = idx[m]
+        usage = pd.Series(np.round(r.uniform(2, 60, len(uidx)) * 8) / 8, index=uidx, name="observed")
+    else:
+        first = idx[idx.hour == case["usage_hour"]][4]
+        starts = [first]
+        for j in range(8):
+            nxt = starts[-1] + pd.Timedelta(days=[29, 31, 30, 33, 28][j % 5])
+            if nxt > idx[-1] - pd.Timedelta(days=2):
+                break
+            starts.append(nxt)
+        usage = pd.Series(list(np.round(r.uniform(300, 900, len(starts) - 1))) + [np.nan], index=pd.DatetimeIndex(starts), name="observed")
+    return temp, usage
+
+
+def alter_usage(usage, name, seed, billing):
+    u = usage.copy()
+    r = np.random.default_rng(seed)
+    n = len(u) - (1 if billing else 0)        # the final NaN of a bill series stays
+    if name == "scaled":
+        u = u * 3.0
+    elif name == "negated":
+        u = u * -1.5 + 0.25
+    elif name == "shuffled":
+        u.iloc[:n] = r.permutation(u.iloc[:n].to_numpy())
+    elif name == "nan30":
+        k = r.random(n) < 0.3
+        if not k.any():
+            k[n // 2] = True
+        u.iloc[:n] = np.where(k, np.nan, u.iloc[:n].to_numpy())
+    elif name == "allnan":
+        u = u * np.nan
+    elif name == "dropped":
+        return None
+    return u
+
+
+def subdaily_data(case, temp, u):
+    cls = sd.data_classes(case["model"])
+    if case["via"] == "from_series":
+        if u is None:
+            raise LookupError("from_series needs a meter series")
+        return cls.from_series(u, temp, is_electricity_data=False)
+    fr = temp.to_frame()
+    if u is not None:
+        fr["observed"] = u.reindex(fr.index)
+    return cls(fr, is_electricity_data=False)
+
+
+def detect_filler_clock():
+    """on which clock does DailyReportingData stamp a day without reading? (frame from 06:00, readings at midnight, one blanked)"""
+    idx = pd.date_range(pd.Timestamp("2022-06-06 06:00", tz="UTC"), periods=5 * 24, freq="h")
+    fr = pd.DataFrame({"temperature": 60.0, "observed": np.nan}, index=idx)
+    fr.loc[idx.hour == 0, "observed"] = 10.0
+    fr.loc[pd.Timestamp("2022-06-08 00:00", tz="UTC"), "observed"] = np.nan
+    try:
+        out = sd.data_classes("daily")(fr, is_electricity_data=False).df.index
+    except Exception as e:  # noqa
+        return None, "raised %s" % type(e).__name__
+    hours = [int(t.hour) for t in out if t.date() == pd.Timestamp("2022-06-08").date()]
+    return {(6,): 0, (0,): 1}.get(tuple(hours)), hours
+
+
+def subdaily_stream(run, cases):
+    terms, meta = [], []
+    for case in cases:
+        rng = random.Random(case["seed"])
+        subs = sd.gen_submodels(rng)
+        with contextlib.redirect_stdout(io.StringIO()):
+            model = sd.build_model(case["model"], subs, case["tz"])
+        temp, usage = build_subdaily(case)
+        billing = case["model"] == "billing"
+        obs, present = {}, {}
+        for name in SUB_ALTS:
+            u = alter_usage(usage, name, case["seed"] % 1000 + SUB_ALTS.index(name), billing)
+            try:
+                data = subdaily_data(case, temp, u)
+            except Exception as e:  # the data class refuses the input (from_series without a reading, ...)
+                run.dist("subdaily_data_class", "%s %s: refused %s" % (case["via"], name, type(e).__name__))
+                continue
+            df_in = data.df
+            o = observe(lambda: model.predict(data))
+            if o["ok"]:
+                o["temp"] = o["frame"]["temperature"].to_numpy(dtype=float)
+            obs[name] = o
+            present[name] = u
+            run.count((vlib.sha(case), name), nontrivial=len(df_in) > 0)
+            run.dist("subdaily_outcome", "ok" if o["ok"] else o["err"])
+            # Coq: the meter-day index the class built (daily class, frame constructor, one reading per day, usage not blank)
+            if (case["model"] == "daily" and case["via"] == "frame" and case["usage"] == "daily" and o["ok"]):
+                has = np.zeros(len(temp), dtype=bool)
+                if u is not None:
+                    has = u.reindex(temp.index).notna().to_numpy()
+                terms.append("(%s, %s, %s, %s)" % (
+                    zlit(MI["z"]), coq_list([zlit(t) for t in wall_minutes(temp.index)]),
+                    coq_list([coq_bool(bool(x)) for x in has]), coq_list([zlit(t) for t in wall_minutes(df_in.index)])))
+                meta.append(dict(case, variant=name))
+        run.dist("subdaily_stream", "%s/%s start %02d usage@%02d %s" % (case["model"], case["via"], case["start_hour"],
+                                                                          case["usage_hour"], case["usage"]))
+
+        def classify(a, b):
+            partial = {"nan30"}
+            blank = {"allnan", "dropped"}
+            off_clock = case["start_hour"] != case["usage_hour"]
+            ua, ub = present.get(a), present.get(b)
+            def span(u):     # what from_series trims both series to (an all-NaN series is not trimmed)
+                return (u.first_valid_index() or u.index[0], u.last_valid_index() or u.index[-1])
+            if case["via"] == "from_series" and ua is not None and ub is not None and span(ua) != span(ub):
+                return "from-series-trims-weather-to-valid-usage-span"
+            if case["model"] == "daily" and case["via"] == "frame" and case["usage"] == "daily" and off_clock \
+                    and MI["z"] == 0 and ((a in partial) != (b in partial)):
+                return "filler-days-on-frame-start-clock"
+            if case["model"] == "billing" and case["via"] == "frame" and off_clock and ((a in blank) != (b in blank)):
+                return "billing-filler-days-on-frame-start-clock"
+            return "unexplained"
+        pairwise(run, case["model"], obs, {"stream": "subdaily", "path": case["via"]}, case, classify=classify)
+        if len(run.cov["samples"]) < 7 and "orig" in obs and obs["orig"]["ok"]:
+            run.sample({"stream": "subdaily", "model": case["model"], "via": case["via"], "start_hour": case["start_hour"],
+                        "usage_hour": case["usage_hour"], "usage": case["usage"], "rows_of_data_df": len(obs["orig"]["ts"]),
+                        "predicted": int(np.isfinite(obs["orig"]["pred"]).sum())})
+    if terms:
+        bad = run.coq_cases("mi", IMPORTS, "", terms, "check_mi", shard=max(4, len(terms) // 12 + 1),
+                            case_type="(Z * list Z * list bool * list Z)%type")
+        if bad is None:
+            run.proof_ok = False
+            return
+        for i in bad[:3]:
+            run.corr_failures.append({"stream": "mi", "case": meta[i],
+                                      "model": run.coq_eval(IMPORTS, "", "show_mi %s" % terms[i])[-600:]})
+        for i in bad[3:]:
+            run.corr_failures.append({"stream": "mi", "case": meta[i]})
 
 
 # ================================================================== really fitted daily / billing models
@@ -868,7 +1041,10 @@ def main():
         "non-solar and solar models reloaded from JSON per run; half of the sets carry repeated time stamps whose records differ in "
         "which cells are NaN (which record survives is compared with Model/HourlyFlow.v select, stream ds); reporting sets of 4-35 days, half of them placed on a clock "
         "change; model object fresh / reused after another set / stored table truncated; outcome class and equality pattern "
-        "of every variant compared with Model/HourlyFlow.v in Coq. caltrack: one fitted model, sets of 3-45 days. "
+        "of every variant compared with Model/HourlyFlow.v in Coq. daily/billing through the data classes (frame constructor and from_series) with hourly temperature rows, frames starting "
+        "at 00/06/18 h, daily / hourly / monthly usage at 00 or 07 h, all alterations; oracle extended by: identical temperature "
+        "in data.df on every stamp predicted in both runs; the meter-day index of the daily class compared with "
+        "Model/CounterfactualFlows.v meter_index_as_coded (stream mi). caltrack: one fitted model, sets of 3-45 days. "
         "distinct = (case hash, variant); non-trivial = at least one finite temperature")
     run.assumptions += [
         "the usage column is altered before the public data class sees it; the data classes themselves (interpolation of hourly "
@@ -905,6 +1081,15 @@ def main():
         dz = 0
     DEDUP["z"] = dz
 
+    mz, mgot = detect_filler_clock()
+    run.cov["daily_filler_clock_detected"] = {0: "FrameStart (clock of the first row of the frame)", 1: "ReadingClock"}.get(
+        mz, "unrecognised: %s" % (mgot,))
+    run.log("daily data class, clock of the filler days:", run.cov["daily_filler_clock_detected"])
+    if mz is None:
+        run.corr_failures.append({"stream": "policy-probe", "impl": str(mgot), "model": "no fill_clock of Model/CounterfactualFlows.v explains the probe"})
+        mz = 0
+    MI["z"] = mz
+
     if run.replay:
         rep = json.load(open(run.replay))
         todo = [rep["case"]]
@@ -939,6 +1124,7 @@ def main():
         hc = [[c for c in todo if c.get("stream") == "hourly" and c["kit_seed"] == k.seed] for k in kits]
         hourly_stream(run, kits, hc, pz, state_policy)
         daily_stream(run, [c for c in todo if c.get("stream") == "daily"])
+        subdaily_stream(run, [c for c in todo if c.get("stream") == "subdaily"])
         fit_stream(run, [(c["model"], c["seed"]) for c in todo if c.get("stream") == "fit"])
         for c in todo:
             if c.get("stream") == "caltrack":
@@ -963,6 +1149,8 @@ def main():
     calendar_repair_stream(run, kits[0], run.n(8, 60))
     run.log("hourly done")
     daily_stream(run, [gen_daily_case(run.rng, k) for k in range(run.n(120, 2000))])
+    subdaily_stream(run, [c for c in corpus if c.get("stream") == "subdaily"] +
+                    [gen_subdaily_case(run.rng, k) for k in range(run.n(18, 300))])
     run.log("daily/billing synthetic done")
     fit_stream(run, [("daily", seeds[2]), ("billing", seeds[3])] if run.quick() else
                [(k, run.rng.randrange(2**31)) for k in ["daily", "billing"] * 4])
